@@ -548,4 +548,48 @@ theorem C16_fold_ordered (ev : Str → EvalResult) (target : Comps) (ws : List (
     · exact C15.order_sorted (.dict D)
     · exact C15.order_sameAssoc (.dict D) hD.nodup
 
+/-! # non-vacuity -/
+
+/-! ## (2): write `{b: 1, 3: {z: 1, y: 2}}`, append `{a: "2", b: 9, 3: {x: 5, z: 7}}`, append `{A: {x: 1}, 1: 0}`,
+    all with `order=True` (int keys sort in front of the header placeholder `BLOCKCOMMENT000000`, `A` too) -/
+
+def exWsO : List (Str × Entries) :=
+  [ (['w'], [(.str ['b'], .leaf (.int 1)), (.int 3, .dict [(.str ['z'], .leaf (.int 1)), (.str ['y'], .leaf (.int 2))])]),
+    (['a'], [(.str ['a'], .leaf (.str ['2'])), (.str ['b'], .leaf (.int 9)),
+             (.int 3, .dict [(.str ['x'], .leaf (.int 5)), (.str ['z'], .leaf (.int 7))])]),
+    (['a'], [(.str ['A'], .dict [(.str ['x'], .leaf (.int 1))]), (.int 1, .leaf (.int 0))]) ]
+
+/-- the unordered fold: `{b: 1, 3: {z: 1, y: 2, x: 5}, a: 2, A: {x: 1}, 1: 0}` -/
+def exFoldU : Entries :=
+  [(.str ['b'], .leaf (.int 1)),
+   (.int 3, .dict [(.str ['z'], .leaf (.int 1)), (.str ['y'], .leaf (.int 2)), (.str ['x'], .leaf (.int 5))]),
+   (.str ['a'], .leaf (.int 2)), (.str ['A'], .dict [(.str ['x'], .leaf (.int 1))]), (.int 1, .leaf (.int 0))]
+
+/-- … ordered: `{1: 0, 3: {x: 5, y: 2, z: 1}, A: {x: 1}, a: 2, b: 1}` -/
+def exFoldO : Entries :=
+  [(.int 1, .leaf (.int 0)),
+   (.int 3, .dict [(.str ['x'], .leaf (.int 5)), (.str ['y'], .leaf (.int 2)), (.str ['z'], .leaf (.int 1))]),
+   (.str ['A'], .dict [(.str ['x'], .leaf (.int 1))]), (.str ['a'], .leaf (.int 2)), (.str ['b'], .leaf (.int 1))]
+
+theorem exWsO_spec : specFold none exWsO = some exFoldU := by decide +kernel
+theorem exFoldO_eq : orderD exFoldU = exFoldO := by decide +kernel
+
+/-- the header placeholder entry is sorted in between the int keys and `A` when the file is re-read with `order=True` -/
+example : orderD (C12.hdrEntry :: exFoldO) =
+    [(.int 1, .leaf (.int 0)),
+     (.int 3, .dict [(.str ['x'], .leaf (.int 5)), (.str ['y'], .leaf (.int 2)), (.str ['z'], .leaf (.int 1))]),
+     (.str ['A'], .dict [(.str ['x'], .leaf (.int 1))]), C12.hdrEntry,
+     (.str ['a'], .leaf (.int 2)), (.str ['b'], .leaf (.int 1))] := by decide +kernel
+
+theorem ex_fold_ordered (ev : Str → EvalResult) :
+    ∃ t c₁ sd c₂, runWrites ev .native ["f".toList] true none none exWsO = .ok (some t, c₁) ∧
+      readFile ev [(["f".toList], .native t)] {} c₁ ["f".toList] = .ok (.ok sd c₂) ∧
+      C01.dropPhEntries sd.data = exFoldO := by
+  obtain ⟨t, c₁, sd, c₂, D, h1, h2, h3, h4, _⟩ := C16_fold_ordered ev ["f".toList] exWsO none (by decide)
+    (by decide +kernel) (by decide +kernel) (Or.inl rfl) (by decide) (by decide) (by decide)
+  rw [exWsO_spec] at h3
+  cases h3
+  rw [exFoldO_eq] at h4
+  exact ⟨t, c₁, sd, c₂, h1, h2, h4⟩
+
 end DictIO.C16ext
